@@ -87,6 +87,7 @@ def r1_promote_before_store(ctx):
                 if rv["k"] == "agg" and rv["adt"].endswith("LocalSlot") and len(rv["ops"]) >= 3:
                     if pid == "runtime::Runtime::eval_function_call":
                         param_binding(ctx, fn, b, rv["ops"][2])
+                        check_sink(ctx, fn, "LocalSlot", b, rv["ops"][2], accepted={PROMOTE}, what="into a parameter slot")
                     else:
                         check_sink(ctx, fn, "LocalSlot", b, rv["ops"][2], what="into a variable slot")
                     n += 1
@@ -347,6 +348,44 @@ def r5_promotion_complete(ctx):
                     ctx.ok("promote|Array|target", vp.where(tgt), "new backing store on %s" % dest[0])
                 else:
                     ctx.bad("promote|Array|target", vp.where(tgt), "promoted array is not allocated on the persistent arena (%s)" % dest)
+    # every deep-copy routine recurses into array items
+    for fid in (PROMOTE, "runtime::Value::detach", "runtime::Value::clone_into"):
+        g = ctx.lib.fns.get(fid)
+        if g is None:
+            if fid.endswith("detach"):
+                ctx.bad("copy-routine|missing|detach", "src/runtime.rs", "Value::detach is gone: returned values are no longer detached from scope-owned storage")
+            continue
+        ctx.touch(g)
+        S2, si2 = entry_discr_switch(g, 1)
+        rec = False
+        if S2 is not None:
+            for lab, tgt in g.succ[S2]:
+                if "Array" in label_names(g, S2, [lab], si2):
+                    region = g.reach([tgt], removed_nodes=[S2])
+                    only = {b for b in region if g.edge_dominated(b, S2, [lab])}
+                    rec = any(c.callee == fid and c.block in only for c in g.calls())
+        if rec:
+            ctx.ok("copy-routine|%s|recurses-into-arrays" % fid.split("::")[-1], g.where(), "the Array arm calls %s on the items" % fid.split("::")[-1])
+        else:
+            ctx.bad("copy-routine|%s|array-arm" % fid.split("::")[-1], g.where(), "Value::%s has no Array arm that recurses into the items: strings inside an array keep pointing into storage that is released" % fid.split("::")[-1])
+    dt = ctx.lib.fns.get("runtime::Value::detach")
+    if dt is not None:
+        # the borrowed-string copy is taken when the pool OR the frame contains the pointer
+        tests = {(dt.switch_info(S3).get("callee") or "").split("::")[-1] for S3 in dt.live if dt.blocks[S3]["t"]["k"] == "switch" and dt.switch_info(S3)["kind"] == "call"}
+        copies = [c for c in dt.calls() if (c.callee or "").endswith("ArenaString::from_str")]
+        if {"contains", "contains_ptr"} <= tests and copies:
+            # pass-through of a Borrowed string only when both tests failed
+            ok = True
+            for c in copies:
+                r = dt.reach([0], removed_edges=[(S3, lab) for S3 in dt.live if dt.blocks[S3]["t"]["k"] == "switch" and dt.switch_info(S3)["kind"] == "call" for lab, _ in dt.succ[S3] if lab != 0])
+                if c.block in r:
+                    ok = False
+            if ok:
+                ctx.ok("detach|borrowed-copy", dt.where(), "copied when pool.contains(ptr) || frame.contains_ptr(ptr)")
+            else:
+                ctx.bad("detach|borrowed-copy", dt.where(), "detach copies a borrowed string on a path where neither containment test succeeded")
+        else:
+            ctx.bad("detach|borrowed-tests|%s" % ",".join(sorted(tests)), dt.where(), "detach no longer tests both pool.contains and frame.contains_ptr before letting a borrowed string through (tests: %s)" % sorted(tests))
     cp = ctx.need("arena::cow::ArenaCow::promote")
     ctx.touch(cp)
     # pass-through aggregates
